@@ -105,10 +105,9 @@ Proof.
   destruct Hx as [H|[H|[(code & H1 & H2 & H3 & H4)|H]]]; auto. right. right. left. exists code. auto.
 Qed.
 
-Lemma gmv_delta pc a b : gmv pc a b -> SI a -> delta_ok (gcode pc) a b.
+Lemma omv_delta pc a b : omv hstate pc a b -> delta_ok (gcode pc) a b.
 Proof.
-  intros M HS. destruct M.
-  - eapply delta_weaken; [|eapply mv_delta; eassumption]. intros code Hc. left. assumption.
+  intros M. destruct M.
   - apply delta_same; reflexivity.
   - eapply delta_one; [reflexivity | | reflexivity | reflexivity]. right. right. right. right. right. left. eauto.
   - apply delta_goaway. destruct H0 as [-> | ->]; [left; in_codes | right; right; reflexivity].
@@ -126,6 +125,13 @@ Proof.
     destruct D as [(l & E & F) R]. split; [|exact R]. exists l. split; [exact E | exact F].
   - apply delta_same; reflexivity.
   - apply delta_same; reflexivity.
+Qed.
+
+Lemma gmv_delta pc a b : gmv pc a b -> SI a -> delta_ok (gcode pc) a b.
+Proof.
+  intros M HS. destruct M.
+  - eapply delta_weaken; [|eapply mv_delta; eassumption]. intros code Hc. left. assumption.
+  - apply omv_delta. assumption.
 Qed.
 
 (* reading new_ok for an item of a given shape *)
